@@ -93,6 +93,8 @@ def step (s : DState) (line : String) : DState × String :=
     | [rc] => (s, rc)
     | _ => bad
   | ["refresh"] => ({ s with st := s.st.refresh }, "ok")
+  -- shared-memory write + adopt: the write refreshes the original; the adopted copy (compared in the harness) lists the same structures
+  | ["shm"] => ({ s with st := s.st.refresh }, "ok")
   | ["dup"] =>
     match parseLive ann with
     | some T => (staleAll { s with st := s.st.dup T }, "ok")
